@@ -62,6 +62,11 @@ add("C06", "simnet", "model-based property testing + exhaustive enumeration of c
     ">=110 dynamic connects with churn and exhaustion of all 100 dynamic ids; Client.connect / client_context keyword arguments compared "
     "with the CONNECT/CONNECT_V2 frames on the wire and with CLIENT_INFO at a monitor. Exploration level.", SIM_NOTE, "DESIGN.md 4 C06")
 
+add("C18", "simnet", "property-based testing with an independent counting oracle (all-seeing logger monitor) over generated reporting intervals",
+    "Generated intervals with 0/1/63/64/65/128/129/300 distinct types, counts up to 65535 (thorough), out-of-range types and destinations, "
+    "module churn and three kinds of report steps; TIMING_MESSAGE and the aggregated MESSAGE_TRAFFIC sub-messages must equal the "
+    "monitor's own count in both directions. Exploration level.", SIM_NOTE, "DESIGN.md 4 C18")
+
 PLANNED = {}
 
 
